@@ -55,13 +55,14 @@ pub fn arb_case() -> impl Strategy<Value = Case> {
         4 => 1usize..6,
         2 => 6usize..40,
         3 => 60usize..70,
-        3 => 120usize..=130,
+        2 => 120usize..=130,
+        2 => 129usize..=130,
     ];
     n.prop_flat_map(|n| {
         let ops = proptest::collection::vec(
             prop_oneof![
                 3 => Just(Op::Add),
-                1 => (1u8..=70).prop_map(Op::AddMany),
+                1 => (1u8..=140).prop_map(Op::AddMany),
                 8 => Just(Op::Poll),
                 3 => any::<u16>().prop_map(Op::Open),
                 1 => Just(Op::OpenAll),
